@@ -251,10 +251,43 @@ def _m(p, n, b):
         return True
     if isinstance(p, ast.Expr) and isinstance(n, ast.Expr):
         return _m(p.value, n.value, b)
+    # x += e  ==  x = x + e  (either way round)
+    if isinstance(p, ast.AugAssign) and isinstance(n, ast.Assign) and \
+            len(n.targets) == 1 and isinstance(n.value, ast.BinOp) and \
+            type(n.value.op) is type(p.op):
+        for a_, b_ in ((n.value.left, n.value.right),
+                       (n.value.right, n.value.left)):
+            if src(a_) == src(n.targets[0]) and (
+                    a_ is n.value.left or isinstance(p.op, (ast.Add,
+                                                            ast.Mult))):
+                b2 = dict(b)
+                if _m(p.target, n.targets[0], b2) and _m(p.value, b_, b2):
+                    b.update(b2)
+                    return True
+        return False
+    if isinstance(p, ast.Assign) and isinstance(n, ast.AugAssign) and \
+            len(p.targets) == 1 and isinstance(p.value, ast.BinOp) and \
+            type(p.value.op) is type(n.op) and \
+            src(p.value.left) == src(p.targets[0]):
+        b2 = dict(b)
+        if _m(p.targets[0], n.target, b2) and _m(p.value.right, n.value, b2):
+            b.update(b2)
+            return True
+        return False
     if type(p) is not type(n):
         return False
     if isinstance(p, ast.Constant):
+        if isinstance(p.value, (int, float)) and isinstance(
+                n.value, (int, float)) and not isinstance(p.value, bool) \
+                and not isinstance(n.value, bool):
+            return p.value == n.value          # 2 matches 2.0
         return type(p.value) is type(n.value) and p.value == n.value
+    # + and * are matched modulo associativity / commutativity
+    if isinstance(p, ast.BinOp) and isinstance(p.op, (ast.Add, ast.Mult)) \
+            and type(p.op) is type(n.op):
+        pl, nl = _ac_flat(p, type(p.op)), _ac_flat(n, type(p.op))
+        if len(pl) == len(nl) and 2 <= len(pl) <= 6:
+            return _ac_match(pl, nl, b)
     for f in p._fields:
         if f in ('ctx', 'type_comment', 'kind'):
             continue
@@ -271,6 +304,29 @@ def _m(p, n, b):
             if pv != nv:
                 return False
     return True
+
+
+def _ac_flat(e, op):
+    if isinstance(e, ast.BinOp) and type(e.op) is op:
+        return _ac_flat(e.left, op) + _ac_flat(e.right, op)
+    return [e]
+
+
+def _ac_match(pl, nl, b):
+    """Match operand lists as multisets (backtracking over bindings)."""
+    if not pl:
+        return True
+    # most constrained first: non-metavariable patterns
+    pl = sorted(pl, key=lambda x: isinstance(x, ast.Name)
+                and x.id.startswith('Q_'))
+    first, rest = pl[0], pl[1:]
+    for i, cand in enumerate(nl):
+        b2 = dict(b)
+        if _m(first, cand, b2) and _ac_match(rest, nl[:i] + nl[i + 1:], b2):
+            b.clear()
+            b.update(b2)
+            return True
+    return False
 
 
 def _is_seqvar(p):
@@ -485,6 +541,120 @@ class ClassInfo:
         self.full = mod.name + ':' + node.name
 
 
+# ---------------------------------------------------------------------------
+# Alpha-normalisation of local names.
+#
+# The rules name some locals (atoms of an algebraic identity, the target of
+# a single definition).  Renaming a local is behaviour-preserving and must
+# not change a verdict, so before any rule runs every function's locals are
+# renamed *back* to the names recorded for that function in
+# dsa/localnames.json (order of first binding on the tree the rules were
+# written against).  Only a consistent renaming of a function's own locals
+# to names unused in it is ever applied -- the program the rules see is
+# alpha-equivalent to the program on disk.
+
+_LOCALNAMES = None
+
+
+def local_order(fn):
+    """Parameter names and locals of a function in order of first binding
+    (comprehension-scoped names and nested defs excluded)."""
+    a = fn.args
+    params = [x.arg for x in a.posonlyargs + a.args + a.kwonlyargs]
+    if a.vararg:
+        params.append(a.vararg.arg)
+    if a.kwarg:
+        params.append(a.kwarg.arg)
+    seen, out = set(params), []
+    stores = []
+
+    def visit(n, top):
+        for ch in ast.iter_child_nodes(n):
+            if isinstance(ch, (ast.FunctionDef, ast.AsyncFunctionDef,
+                               ast.ClassDef, ast.Lambda, ast.ListComp,
+                               ast.SetComp, ast.DictComp, ast.GeneratorExp)):
+                continue
+            if isinstance(ch, ast.Name) and isinstance(ch.ctx, ast.Store):
+                stores.append(ch)
+            visit(ch, False)
+    visit(fn, True)
+    stores.sort(key=lambda n: (n.lineno, n.col_offset))
+    for n in stores:
+        if n.id not in seen:
+            seen.add(n.id)
+            out.append(n.id)
+    return params, out
+
+
+def _qualfuncs(tree):
+    out = []
+
+    def rec(body, prefix):
+        for st in body:
+            if isinstance(st, (ast.FunctionDef, ast.AsyncFunctionDef)):
+                q = prefix + st.name
+                if any(isinstance(d, ast.Attribute) and d.attr == 'setter'
+                       for d in st.decorator_list):
+                    q += '.setter'
+                out.append((q, st))
+                rec(st.body, q + '.')
+            elif isinstance(st, ast.ClassDef):
+                rec(st.body, prefix + st.name + '.')
+            elif isinstance(st, (ast.If, ast.Try, ast.For, ast.While,
+                                 ast.With)):
+                rec([s for s in ast.iter_child_nodes(st)
+                     if isinstance(s, ast.stmt)], prefix)
+    rec(tree.body, '')
+    return out
+
+
+def align_locals(tree, modname):
+    """Rename locals back to their recorded names.  -> [(func, cur, ref)]"""
+    global _LOCALNAMES
+    if _LOCALNAMES is None:
+        p = os.path.join(VERIF, 'dsa', 'localnames.json')
+        try:
+            with open(p) as fh:
+                _LOCALNAMES = json.load(fh)
+        except OSError:
+            _LOCALNAMES = {}
+    table = _LOCALNAMES.get(modname)
+    if not table or os.environ.get('DSA_NO_ALIGN'):
+        return []
+    done = []
+    for q, fn in _qualfuncs(tree):
+        ref = table.get(q)
+        if not ref:
+            continue
+        params, locs = local_order(fn)
+        used = {n.id for n in ast.walk(fn) if isinstance(n, ast.Name)} | \
+            set(params)
+        mapping = {}
+        ref_only = [n for n in ref['locals'] if n not in locs]
+        cur_only = [n for n in locs if n not in ref['locals']]
+        if ref_only and len(ref_only) == len(cur_only):
+            for c, r in zip(cur_only, ref_only):
+                if r not in used:
+                    mapping[c] = r
+        rp = ref.get('params', [])
+        if len(rp) == len(params):
+            for c, r in zip(params, rp):
+                if c != r and r not in used and c != 'self':
+                    mapping[c] = r
+        if not mapping:
+            continue
+        for n in ast.walk(fn):
+            if isinstance(n, ast.Name) and n.id in mapping:
+                n.id = mapping[n.id]
+            elif isinstance(n, ast.arg) and n.arg in mapping:
+                n.arg = mapping[n.arg]
+            elif isinstance(n, ast.keyword) and False:
+                pass
+        for c, r in mapping.items():
+            done.append((q, c, r))
+    return done
+
+
 class Module:
     def __init__(self, name, path, rel, text):
         self.name = name
@@ -495,6 +665,7 @@ class Module:
             self.tree = ast.parse(text, filename=path)
         except SyntaxError as e:
             raise AnalysisError('cannot parse %s: %s' % (rel, e))
+        self.renames = align_locals(self.tree, name)
         set_parents(self.tree)
         self.funcs = {}      # qual -> FuncInfo
         self.classes = {}    # name -> ClassInfo
